@@ -279,6 +279,15 @@ func ruleR062(c *Ctx) {
 	forEachFuncBody([]*packages.Package{vp}, func(pkg *packages.Package, fn ast.Node, body *ast.BlockStmt) {
 		heldBy := c.lockHolds(info, fn, body)
 		held := func(at ast.Node) bool { return heldBy(at) != nil }
+		// a read lock (sync.RWMutex.RLock) protects reads only
+		readLockOnly := func(at ast.Node) bool {
+			l := heldBy(at)
+			if l == nil {
+				return false
+			}
+			cal := Callee(info, l)
+			return cal != nil && cal.Name() == "RLock"
+		}
 		isStore := func(sel *ast.SelectorExpr) bool {
 			p := c.Parent(sel)
 			for {
@@ -345,6 +354,10 @@ func ruleR062(c *Ctx) {
 					}
 				}
 			}
+			if held(sel) && store && readLockOnly(sel) {
+				c.Violation(key, sel.Pos(), "the field %s of a shared *List is written while only the read lock (RLock) is held: concurrent readers and writers race on it", sel.Sel.Name)
+				return true
+			}
 			if held(sel) {
 				c.OK(key, sel.Pos(), "%s under the list's mutex", kind)
 				return true
@@ -375,9 +388,9 @@ func (c *Ctx) lockHolds(info *types.Info, fn ast.Node, body *ast.BlockStmt) func
 		if call, ok := y.(*ast.CallExpr); ok {
 			if cal := Callee(info, call); cal != nil && cal.Pkg() != nil && cal.Pkg().Path() == "sync" {
 				switch cal.Name() {
-				case "Lock":
+				case "Lock", "RLock":
 					locks = append(locks, call)
-				case "Unlock":
+				case "Unlock", "RUnlock":
 					if _, isDefer := c.Parent(call).(*ast.DeferStmt); !isDefer {
 						unlocks = append(unlocks, call)
 					}
@@ -566,5 +579,153 @@ func ruleR101closures(c *Ctx) {
 	}
 	if nLit < 20 {
 		c.Undecided("funcGen#generated-closures", token.NoPos, "only %d generated closures found", nLit)
+	}
+}
+
+// ---------------------------------------------------------------------------
+// R06.4 deep traversals are complete.
+//
+// A function of the value package that walks a value of the language
+// recursively (a type switch over a Value with a call of itself) is used where
+// everything reachable has to be forced or visited - deepEvalLists makes a
+// multiUse consumer pull every lazy list derived from its argument while the
+// shared source is being fed. In a clause for a container (*List, Map) no
+// path may report success before the elements have been handed to the
+// recursion: "the list already has its items" says nothing about the items
+// themselves, which may be lazy lists. Structured check: no `return nil`
+// (success) in the clause before the first statement that contains the
+// recursive call.
+
+func ruleR064(c *Ctx) {
+	vp := c.Pkg("value")
+	if vp == nil {
+		c.Undecided("package value", token.NoPos, "not found")
+		return
+	}
+	info := vp.TypesInfo
+	n := 0
+	for _, f := range vp.Syntax {
+		for _, d := range f.Decls {
+			fd, ok := d.(*ast.FuncDecl)
+			if !ok || fd.Body == nil {
+				continue
+			}
+			self, _ := info.Defs[fd.Name].(*types.Func)
+			if self == nil {
+				continue
+			}
+			callsSelf := func(x ast.Node) bool {
+				return containsNodeDeep(x, func(y ast.Node) bool {
+					call, ok := y.(*ast.CallExpr)
+					return ok && Callee(info, call) == self.Origin()
+				})
+			}
+			if !callsSelf(fd.Body) {
+				continue
+			}
+			// the function reports success with a nil error as its last result
+			sig := self.Type().(*types.Signature)
+			if sig.Results().Len() == 0 || !isErrorType(sig.Results().At(sig.Results().Len()-1).Type()) {
+				continue
+			}
+			// a clause for a container: a case of a type switch over a Value, or `if x, ok := v.(*List); ok { ... }`
+			checkClause := func(container string, body []ast.Stmt, pos token.Pos) {
+				n++
+				key := fmt.Sprintf("%s#deep-traversal:%s", declName(vp, fd), container)
+				visit := -1
+				for i, s := range body {
+					if callsSelf(s) {
+						visit = i
+						break
+					}
+				}
+				if visit < 0 {
+					c.Violation(key, pos, "the clause for %s does not hand the elements to the recursion: lazy lists inside the container are never visited", container)
+					return
+				}
+				var early *ast.ReturnStmt
+				for _, s := range body[:visit] {
+					ast.Inspect(s, func(y ast.Node) bool {
+						if _, isLit := y.(*ast.FuncLit); isLit {
+							return false
+						}
+						r, ok := y.(*ast.ReturnStmt)
+						if !ok || len(r.Results) == 0 || early != nil {
+							return true
+						}
+						if id, ok := ast.Unparen(r.Results[len(r.Results)-1]).(*ast.Ident); ok && id.Name == "nil" {
+							early = r
+						}
+						return true
+					})
+				}
+				if early != nil {
+					c.Violation(key, early.Pos(), "the clause for %s reports success before its elements were handed to the recursion (line %d): a container that is already materialised can still hold lazy lists, which are then never visited - a multiUse consumer that returns such a value never pulls its copy of the source and the evaluation ends in the iterator's timeout", container, c.Fset.Position(early.Pos()).Line)
+				} else {
+					c.OK(key, pos, "every success path of the clause for %s passes the recursion over the elements", container)
+				}
+			}
+			containerOf := func(e ast.Expr) string {
+				if isNamed(info.TypeOf(e), modPath+"/value", "List") {
+					return "*List"
+				}
+				if isNamed(info.TypeOf(e), modPath+"/value", "Map") {
+					return "Map"
+				}
+				return ""
+			}
+			ast.Inspect(fd.Body, func(x ast.Node) bool {
+				if ifs, ok := x.(*ast.IfStmt); ok {
+					if as, ok := ifs.Init.(*ast.AssignStmt); ok && len(as.Lhs) == 2 && len(as.Rhs) == 1 {
+						if ta, ok := ast.Unparen(as.Rhs[0]).(*ast.TypeAssertExpr); ok && ta.Type != nil && isNamed(info.TypeOf(ta.X), modPath+"/value", "Value") {
+							if okID, ok := as.Lhs[1].(*ast.Ident); ok {
+								if cid, ok := ast.Unparen(ifs.Cond).(*ast.Ident); ok && info.ObjectOf(cid) == info.ObjectOf(okID) {
+									if ct := containerOf(ta.Type); ct != "" {
+										checkClause(ct, ifs.Body.List, ifs.Pos())
+									}
+								}
+							}
+						}
+					}
+					return true
+				}
+				ts, ok := x.(*ast.TypeSwitchStmt)
+				if !ok {
+					return true
+				}
+				// switch over a Value
+				var tag ast.Expr
+				switch a := ts.Assign.(type) {
+				case *ast.AssignStmt:
+					if ta, ok := ast.Unparen(a.Rhs[0]).(*ast.TypeAssertExpr); ok {
+						tag = ta.X
+					}
+				case *ast.ExprStmt:
+					if ta, ok := ast.Unparen(a.X).(*ast.TypeAssertExpr); ok {
+						tag = ta.X
+					}
+				}
+				if tag == nil || !isNamed(info.TypeOf(tag), modPath+"/value", "Value") {
+					return true
+				}
+				for _, cl := range ts.Body.List {
+					cc := cl.(*ast.CaseClause)
+					container := ""
+					for _, e := range cc.List {
+						if ct := containerOf(e); ct != "" {
+							container = ct
+						}
+					}
+					if container == "" {
+						continue
+					}
+					checkClause(container, cc.Body, cc.Pos())
+				}
+				return true
+			})
+		}
+	}
+	if n == 0 {
+		c.Undecided("value#deep-traversals", token.NoPos, "no recursive traversal of language values found (deepEvalLists expected)")
 	}
 }
